@@ -39,16 +39,35 @@ class C12(fw.Property):
     rule = ("streams: window_ops = random/boundary op lists (is_valid/strike_out, repeats, jumps beyond the window, sizes 1,2,8,32,64) on the real "
             "ReplayWindow vs Gen/oscore_replay (translated from source); unprotect_flow = histories of protected requests (fresh / replayed / out-of-window / "
             "forged / with right, wrong or no Echo; window initialised or not; echo_recovery set or not) through the real CanUnprotect.unprotect vs "
-            "Model/C12.unprotect_request. Non-trivial = history contains at least one accepted and one rejected number; distinct by full input.")
+            "Model/C12.unprotect_request; mixed_flow = histories of protected requests AND responses (answers to requests the context itself sent, with or without an "
+            "own Partial IV, authentic or forged) through the real unprotect vs Model/C12.prun, comparing per message the outcome and the can_reuse_nonce flag handed on. Non-trivial = history contains at least one accepted and one rejected number; distinct by full input.")
     trusted_base = ["translator translate/py2v.py + Lib/Py.v prelude (validated by the window_ops stream on every run)",
                     "hand-written Model/C12.v flow model (validated by the unprotect_flow stream)",
                     "harness stubs for cbor2/cryptography(AES-CCM, HKDF)/filelock (validated against RFC 8613 vectors via tests/test_oscore.py)"]
-    assumptions = ["AEAD idealised: model input 'authentic' = whether the stub AES-CCM verifies", "the real cryptography wheel is never exercised in this sandbox"]
+    assumptions = ["AEAD idealised: model input 'authentic' = whether the stub AES-CCM verifies",
+                   "a response that verifies under the RequestIdentifiers of a request this process sent is fresh (basis of the response-initialised window, notes/C12.md O1)", "the real cryptography wheel is never exercised in this sandbox"]
 
     def gen_cases(self, tier, rng, n):
         sizes = [1, 2, 8, 32, 64]
         for k in range(n):
-            if k % 2 == 0:
+            if k % 3 == 2:
+                init = rng.random() < 0.45
+                have_echo = rng.random() < 0.75
+                msgs = []; hi = 0
+                for _ in range(rng.randint(1, 14)):
+                    if rng.random() < 0.3:
+                        own = None if rng.random() < 0.4 else rng.randint(0, 60)
+                        msgs.append({"resp": own, "authentic": rng.random() < 0.75})
+                        continue
+                    kind = rng.random()
+                    if kind < 0.3: num = hi + 1
+                    elif kind < 0.55: num = rng.randint(0, hi + 2)
+                    elif kind < 0.7: num = hi + rng.choice([31, 32, 33, 40, 70])
+                    else: num = max(0, hi - rng.choice([1, 2, 30, 31, 32, 33, 34]))
+                    hi = max(hi, num)
+                    msgs.append({"seqno": num, "authentic": rng.random() < 0.75, "echo": rng.choice([None, None, ECHO_OK, ECHO_OK, ECHO_BAD])})
+                yield "mixed_flow", {"initialized": init, "echo_recovery": have_echo, "msgs": msgs}
+            elif k % 3 == 0:
                 size = rng.choice(sizes); ops = []; hi = 0
                 for _ in range(rng.randint(1, 25)):
                     kind = rng.random()
@@ -94,6 +113,7 @@ class C12(fw.Property):
                     else: w.strike_out(num); out.append("done")
                 except Exception as e: out.append("exn:" + type(e).__name__)
             return {"results": out, "index": w._index, "bitfield": w._bitfield}
+        if stream == "mixed_flow": return self._impl_mixed(inp)
         client = make_ctx(b"\x01", b"\x02"); server = make_ctx(b"\x02", b"\x01")
         server.recipient_replay_window = o.ReplayWindow(32, lambda: None)
         if inp["initialized"]: server.recipient_replay_window.initialize_empty()
@@ -115,6 +135,49 @@ class C12(fw.Property):
             except Exception as e: out.append("exn:" + type(e).__name__)
         w = server.recipient_replay_window
         return {"outcomes": out, "window": [w._index, w._bitfield] if w.is_initialized() else None}
+    def _impl_mixed(self, inp):
+        """requests AND responses through the real CanUnprotect.unprotect of `server`; for every request the
+        can_reuse_nonce flag of the RequestIdentifiers that unprotect hands on (return value / ReplayErrorWithEcho)"""
+        import aiocoap, aiocoap.oscore as o
+        client = make_ctx(b"\x01", b"\x02"); server = make_ctx(b"\x02", b"\x01")
+        server.recipient_replay_window = o.ReplayWindow(32, lambda: None)
+        client.recipient_replay_window = o.ReplayWindow(32, lambda: None); client.recipient_replay_window.initialize_empty()
+        if inp["initialized"]: server.recipient_replay_window.initialize_empty()
+        server.echo_recovery = echo_bytes(ECHO_OK) if inp["echo_recovery"] else None
+        server.sender_sequence_number = 1000
+        out = []
+        def wire_of(prot): return aiocoap.Message.decode(self._encode(prot), "peer")
+        for r in inp["msgs"]:
+            try:
+                if "resp" in r:
+                    # `server` sends a request of its own, the peer answers it (with or without an own Partial IV)
+                    q = aiocoap.Message(code=aiocoap.GET, uri="coap://example.com/y")
+                    qprot, rid = server.protect(q)
+                    _, rid_peer = client.unprotect(wire_of(qprot))
+                    a = aiocoap.Message(code=aiocoap.CONTENT, payload=b"r")
+                    if r["resp"] is not None:
+                        rid_peer.can_reuse_nonce = False; client.sender_sequence_number = r["resp"]
+                    aprot, _ = client.protect(a, rid_peer)
+                    if not r["authentic"]: aprot.payload = aprot.payload[:-1] + bytes([aprot.payload[-1] ^ 1])
+                    w = wire_of(aprot)
+                    has_piv = o.COSE_PIV in server._extract_encrypted0(w)[2]
+                    if has_piv != (r["resp"] is not None): out.append(["harness", "piv-mismatch"]); continue
+                    try: server.unprotect(w, rid); out.append(["resp", True])
+                    except o.ProtectionInvalid: out.append(["resp", False])
+                    continue
+                m = aiocoap.Message(code=aiocoap.GET, uri="coap://example.com/x")
+                if r["echo"] is not None: m.opt.echo = echo_bytes(r["echo"])
+                client.sender_sequence_number = r["seqno"]
+                prot, _ = client.protect(m)
+                if not r["authentic"]: prot.payload = prot.payload[:-1] + bytes([prot.payload[-1] ^ 1])
+                try:
+                    _, rid = server.unprotect(wire_of(prot)); out.append(["Accept", bool(rid.can_reuse_nonce)])
+                except o.ReplayErrorWithEcho as e: out.append(["RejectEcho", bool(e.request_id.can_reuse_nonce)])
+                except o.ReplayError: out.append(["RejectReplay", False])
+                except o.ProtectionInvalid: out.append(["RejectInvalid", False])
+            except Exception as e: out.append(["exn:" + type(e).__name__, False])
+        w = server.recipient_replay_window
+        return {"outcomes": out, "window": [w._index, w._bitfield] if w.is_initialized() else None}
     def _encode(self, m):
         import aiocoap
         m.mtype = aiocoap.CON; m.mid = 1; m.token = b""
@@ -125,6 +188,11 @@ class C12(fw.Property):
         if stream == "window_ops":
             ops = glist([("IsValid %s" if op == "valid" else "StrikeOut %s") % gz(n) for op, n in inp["ops"]])
             return "let r := wrun (initialize_empty %s) %s in (snd r, rw_index (fst r), rw_bitfield (fst r))" % (gz(inp["size"]), ops)
+        if stream == "mixed_flow":
+            ms = glist([("PResp %s %s" % (gopt(r["resp"], gz), gbool(r["authentic"]))) if "resp" in r else
+                        "PReq {| seqno := %s; authentic := %s; echo := %s |}" % (gz(r["seqno"]), gbool(r["authentic"]), gopt(r["echo"], gz)) for r in inp["msgs"]])
+            c = "{| size := 32; window := %s; echo_recovery := %s |}" % ("Some (initialize_empty 32)" if inp["initialized"] else "None", "Some %s" % gz(ECHO_OK) if inp["echo_recovery"] else "None")
+            return "let r := prun %s %s in (snd r, match window (fst r) with Some w => Some (rw_index w, rw_bitfield w) | None => None end)" % (c, ms)
         reqs = glist(["{| seqno := %s; authentic := %s; echo := %s |}" % (gz(r["seqno"]), gbool(r["authentic"]), gopt(r["echo"], gz)) for r in inp["reqs"]])
         c = "{| size := 32; window := %s; echo_recovery := %s |}" % ("Some (initialize_empty 32)" if inp["initialized"] else "None", "Some %s" % gz(ECHO_OK) if inp["echo_recovery"] else "None")
         return "let r := run %s %s in (snd r, match window (fst r) with Some w => Some (rw_index w, rw_bitfield w) | None => None end)" % (c, reqs)
@@ -138,6 +206,12 @@ class C12(fw.Property):
                 return "exn:" + x["a"][0]
             return {"results": [one(x) for x in res], "index": idx, "bitfield": bf}
         outs, win = p
+        if stream == "mixed_flow":
+            def po(x):
+                if x["c"] == "OResp": return ["resp", x["a"][0]]
+                o_, reuse = x["a"]
+                return [o_ if isinstance(o_, str) else "exn:" + str(o_["a"][0]), reuse]
+            return {"outcomes": [po(x) for x in outs], "window": None if win == "None" else list(win["a"][0])}
         def oc(x): return x if isinstance(x, str) else "exn:" + str(x["a"][0])
         return {"outcomes": [oc(x) for x in outs], "window": None if win == "None" else list(win["a"][0])}
 
@@ -159,12 +233,15 @@ class C12(fw.Property):
                         struck.add(num); hi = max(hi, num)
                     elif num > hi: return ("C12:fresh-rejected", "strike_out(%d) above everything seen (%d) raised" % (num, hi))
             return None
+        if stream == "mixed_flow": return self._oracle_mixed(inp, res)
         accepted = set(); hi = None; initialized = inp["initialized"]
         for r, o in zip(inp["reqs"], res["outcomes"]):
             if o.startswith("exn:"): return ("C12:flow-exception", "%s escaped unprotect for %r" % (o, r))
             if o == "Accept":
                 if not r["authentic"]: return ("C12:forgery-accepted", "forged request %d accepted" % r["seqno"])
                 if r["seqno"] in accepted: return ("C12:accepted-twice", "sequence number %d accepted twice" % r["seqno"])
+                if initialized and hi is not None and r["seqno"] <= hi - 32:
+                    return ("C12:out-of-window-accepted", "request %d accepted although out of window (highest accepted %d)" % (r["seqno"], hi))
                 if not initialized:
                     if not (inp["echo_recovery"] and r["echo"] == ECHO_OK):
                         return ("C12:uninitialised-accept", "request %d accepted while window uninitialised without fresh Echo" % r["seqno"])
@@ -173,14 +250,52 @@ class C12(fw.Property):
             else:
                 if initialized and r["authentic"] and (hi is None or r["seqno"] > hi):
                     return ("C12:fresh-rejected", "authentic request %d above everything seen was rejected (%s)" % (r["seqno"], o))
-                if initialized and hi is not None and r["seqno"] <= hi - 32 and o == "Accept":
-                    return ("C12:out-of-window-accepted", "request %d accepted although out of window" % r["seqno"])
-        # forged messages must not have blocked genuine ones: covered by fresh-rejected above
+                if initialized and r["authentic"] and r["seqno"] not in accepted and hi is not None and r["seqno"] > hi - 32:
+                    return ("C12:genuine-blocked", "authentic request %d, never accepted before and inside the window (highest accepted %d), was rejected (%s)" % (r["seqno"], hi, o))
+        return None
+    def _oracle_mixed(self, inp, res):
+        """the property on a history of requests and responses; independent bookkeeping of what a correct replay
+        protection must have accepted (set `accepted`, highest number `hi`; window size 32)"""
+        accepted = set(); hi = None; initialized = inp["initialized"]; reuse_given = set()
+        for r, (o, flag) in zip(inp["msgs"], res["outcomes"]):
+            if o == "harness": return ("C12:crash:harness", "harness could not build the response it wanted: %r" % (flag,))
+            if o.startswith("exn:"): return ("C12:flow-exception", "%s escaped unprotect for %r" % (o, r))
+            if "resp" in r:
+                if flag is not r["authentic"]:
+                    return ("C12:response-" + ("forgery-accepted" if flag else "genuine-rejected"), "response %r: unprotect %s" % (r, "succeeded" if flag else "failed"))
+                if flag and not initialized and inp["echo_recovery"] and r["resp"] is not None:
+                    initialized = True; accepted |= set(range(0, r["resp"] + 1)); hi = r["resp"]
+                continue
+            n = r["seqno"]
+            if flag and o != "Accept": return ("C12:reusable-nonce-on-reject", "request %d: %s hands on can_reuse_nonce=True" % (n, o))
+            if o == "Accept":
+                if not r["authentic"]: return ("C12:forgery-accepted", "forged request %d accepted" % n)
+                if n in accepted: return ("C12:accepted-twice", "sequence number %d accepted twice" % n)
+                if initialized and hi is not None and n <= hi - 32:
+                    return ("C12:out-of-window-accepted", "request %d accepted although out of window (highest %d)" % (n, hi))
+                if not initialized:
+                    if not (inp["echo_recovery"] and r["echo"] == ECHO_OK):
+                        return ("C12:uninitialised-accept", "request %d accepted while window uninitialised without fresh Echo" % n)
+                    if flag: return ("C12:reusable-nonce-after-echo-recovery", "request %d accepted through Echo recovery hands on can_reuse_nonce=True" % n)
+                    initialized = True; accepted |= set(range(0, n))
+                elif not flag:
+                    return ("C12:fresh-without-reuse", "request %d passed the replay check but can_reuse_nonce is False" % n)
+                if flag:
+                    if n in reuse_given: return ("C12:nonce-reusable-twice", "nonce of sequence number %d handed on as reusable twice" % n)
+                    reuse_given.add(n)
+                accepted.add(n); hi = n if hi is None else max(hi, n)
+            else:
+                if initialized and r["authentic"] and (hi is None or n > hi):
+                    return ("C12:fresh-rejected", "authentic request %d above everything seen was rejected (%s)" % (n, o))
+                if initialized and r["authentic"] and n not in accepted and hi is not None and n > hi - 32:
+                    return ("C12:genuine-blocked", "authentic request %d, never accepted before and inside the window (highest %d), was rejected (%s)" % (n, hi, o))
         return None
     def nontrivial(self, stream, inp, res):
         if stream == "window_ops":
             rs = res.get("results", [])
             ok = any(x == "done" for x in rs) and any(x == "exn:ValueError" or x is False for x in rs)
+        elif stream == "mixed_flow":
+            os_ = [x[0] for x in res.get("outcomes", [])]; ok = "Accept" in os_ and any(x not in ("Accept", "resp") for x in os_)
         else:
             os_ = res.get("outcomes", []); ok = "Accept" in os_ and any(x != "Accept" for x in os_)
         return fw.jdump([stream, inp]) if ok else None
